@@ -99,4 +99,28 @@ mod verif_kani_jenkins {
         }
         kani::cover!(true);
     }
+
+    /// C09 (thorough; bounded: lengths 26..=37, second byte pattern, second seed pair)
+    #[kani::proof]
+    #[kani::unwind(40)]
+    fn lookup3_lengths_26_to_37() {
+        let (pc0, pb0): (u32, u32) = (0xdead_beef, 7);
+        let mut buf = [0u8; 37];
+        let mut i = 0;
+        while i < 37 {
+            buf[i] = (255 - i as u8) ^ 0x5a;
+            i += 1;
+        }
+        let mut len = 26usize;
+        while len <= 37 {
+            let key = &buf[..len];
+            let (mut pc, mut pb) = (pc0, pb0);
+            hashlittle2(key, &mut pc, &mut pb);
+            let e = spec_hashlittle2(key, pc0, pb0);
+            assert!(pc == e.0 && pb == e.1, "hashlittle2 == lookup3 hashlittle2");
+            assert!(hashlittle(key, pc0) == spec_hashlittle2(key, pc0, 0).0, "hashlittle == lookup3 hashlittle");
+            len += 1;
+        }
+        kani::cover!(true);
+    }
 }
